@@ -9,7 +9,9 @@ git -C /repo worktree remove --force $wt 2>/dev/null
 git -C /repo worktree add -q --detach $wt HEAD || exit 2
 (cd $wt && git apply $src/patch.diff) || {
   # written against an older HEAD: try a three-way merge and keep the rebased patch
-  (cd $wt && git apply -3 $src/patch.diff && git reset -q && git diff > $src/patch.rebased && mv $src/patch.rebased $src/patch.diff && echo "patch rebased onto the current HEAD") || { echo "PATCH DOES NOT APPLY"; git -C /repo worktree remove --force $wt; exit 2; }
+  (cd $wt && git apply -3 $src/patch.diff && git reset -q && git diff > $src/patch.rebased && mv $src/patch.rebased $src/patch.diff && echo "patch rebased onto the current HEAD") ||
+  (cd $wt && git reset -q --hard && { git apply -C1 --recount $src/patch.diff || patch -p1 -F3 -s < $src/patch.diff; } && find . -name '*.orig' -delete && git diff > $src/patch.rebased && mv $src/patch.rebased $src/patch.diff && echo "patch rebased onto the current HEAD (reduced context)") ||
+  { echo "PATCH DOES NOT APPLY"; git -C /repo worktree remove --force $wt; exit 2; }
 }
 (cd $wt && go build ./...) || { echo "DOES NOT COMPILE"; git -C /repo worktree remove --force $wt; exit 2; }
 suite=$(cd $wt && go test -vet=off -count=1 ./... 2>&1 | grep -v "no test files")
